@@ -4,6 +4,7 @@ go 1.23
 
 require (
 	github.com/fsnotify/fsnotify v0.0.0
+	github.com/anishathalye/porcupine v1.3.0
 	golang.org/x/sys v0.13.0
 )
 
